@@ -53,4 +53,5 @@ props! {
     "C25" => c25,
     "X03" => x03,
     "X01" => x01,
+    "X04" => x04,
 }
